@@ -93,6 +93,19 @@ def evaluate(ctx, rng, tier, focus, budget, broken):
             viol_.append(viol(f"a cell must have exactly {want} distinct valid same-resolution neighbours",
                               f"disk {gen.hx(h)} 1", want, [gen.hx(x) for x in n]))
         allnb += n
+    # gridDisk itself (the function the statement names), k = 1: seven slots, the origin once, each neighbour once
+    ops1 = [f"disk0 {gen.hx(h)} 1" for h in origins]
+    out1 = ctx.c(ops1, tag="eval_disk1")
+    for h, o, a in zip(origins, ops1, out1):
+        if not ok(a):
+            viol_.append(viol("gridDisk(k=1) failed on a valid cell", o, "success", a)); continue
+        slots = parse_hs(a)
+        cells = [c for c in slots if c != 0]
+        want = 5 if gen.is_pentagon(h) else 6
+        if len(slots) != 7 or len(cells) != len(set(cells)) or cells.count(h) != 1 or len(cells) != want + 1 \
+                or (nb.cache[h] is not None and set(cells) - {h} != set(nb.cache[h])):
+            viol_.append(viol(f"gridDisk(k=1) must return the origin and its {want} neighbours, each exactly once, in 7 slots",
+                              o, f"{want + 1} distinct cells", a[:300]))
     nb.fetch(allnb)
     for h in origins:
         for x in (nb.cache[h] or []):
@@ -152,8 +165,11 @@ def evaluate(ctx, rng, tier, focus, budget, broken):
                                   f"{len(bfs)} cells with exact distances", f"missing {miss} extra {extra} wrong-distance {wrongd}"))
             ndisk += 1
         if ok(a_disk0):
-            got0 = set(c for c in parse_hs(a_disk0) if c != 0)
-            if got0 != set(bfs):
+            lst0 = [c for c in parse_hs(a_disk0) if c != 0]
+            got0 = set(lst0)
+            if len(lst0) != len(got0) or len(parse_hs(a_disk0)) != size:
+                viol_.append(viol("gridDisk: duplicates or wrong buffer size", ops[5 * i + 4], f"{len(bfs)} distinct cells in {size} slots", a_disk0[:200]))
+            elif got0 != set(bfs):
                 viol_.append(viol("gridDisk differs from breadth-first search", ops[5 * i + 4], len(bfs), len(got0)))
         else:
             viol_.append(viol("gridDisk failed on a valid cell", ops[5 * i + 4], "success", a_disk0))
